@@ -27,7 +27,7 @@ THEOREMS = [_NS + n for n in [
     "export_of_dirPlain",
     "tls12_connection_exact",
     "tls13_connection_exact",
-    "tls12_connection_exact_counterexample",
+    "Ex.tls12_connection_exact_counterexample",
     "Ex.tls12_instance",
     "Ex.tls13_instance",
 ]]
